@@ -657,13 +657,92 @@ func (g *Gen) scenarioDeepLoops() []StmtN {
 	return l
 }
 
+// scenarioErrexitCompound: under errexit, EVERY kind of compound command (case, if, for, while, until,
+// { }, ( )) whose last inner command is a failing && || list, a negated command, or a plain failure,
+// followed by a marker; top level or inside a function.
+func (g *Gen) scenarioErrexitCompound() []StmtN {
+	tail := func() []StmtN {
+		var last StmtN
+		switch g.R.IntN(5) {
+		case 0, 1:
+			last = StmtN{false, binN{true, call("false"), call("true")}} // false && true
+		case 2:
+			last = StmtN{false, binN{false, StmtN{false, binN{true, call("true"), call("false")}}, call("false")}}
+		case 3:
+			last = StmtN{true, callN{[]word{lit("true")}}} // ! true
+		default:
+			last = StmtN{false, binN{true, g.atom(), g.atom()}}
+		}
+		if g.R.IntN(2) == 0 {
+			return []StmtN{g.atom2(), last}
+		}
+		return []StmtN{last}
+	}
+	mk := func(kind int) StmtN {
+		switch kind {
+		case 0:
+			return StmtN{false, caseN{lit("x"), []caseItem{{[]patN{{w: lit("y")}}, []StmtN{call("echo", "no")}}, {[]patN{{w: lit("x")}, {any: true}}, tail()}}}}
+		case 1:
+			return StmtN{false, ifN{c: []StmtN{call("true")}, t: tail()}}
+		case 2:
+			return StmtN{false, ifN{c: []StmtN{call("false")}, t: []StmtN{call("echo", "no")}, e: &ifN{t: tail()}}}
+		case 3:
+			return StmtN{false, forN{"i", []word{lit("a"), lit("b")}, tail()}}
+		case 4:
+			g.loopVar++
+			wv := fmt.Sprintf("w%d", g.loopVar)
+			guard := StmtN{false, caseN{word{{'v', wv}}, []caseItem{{[]patN{{w: lit("a")}}, []StmtN{call("false")}}, {[]patN{{any: true}}, []StmtN{call("true")}}}}}
+			body := append([]StmtN{{false, assignN{wv, word{{'v', wv}, {'l', "a"}}}}}, tail()...)
+			return StmtN{false, blockN{[]StmtN{{false, assignN{wv, word{}}}, {false, whileN{false, []StmtN{guard}, body}}}}}
+		case 5:
+			return StmtN{false, blockN{tail()}}
+		default:
+			return StmtN{false, subN{[]StmtN{call("echo", "in"), {false, binN{true, call("false"), call("true")}}}}}
+		}
+	}
+	l := []StmtN{call("set", "-e")}
+	var body []StmtN
+	n := 1 + g.R.IntN(3)
+	first := g.R.IntN(7)
+	for i := 0; i < n; i++ {
+		k := (first + i*3) % 7
+		body = append(body, mk(k), StmtN{false, callN{[]word{lit("echo"), lit(fmt.Sprintf("here%d", k)), {{'s', ""}}}}})
+	}
+	if g.R.IntN(3) == 0 {
+		name := funcNames[g.R.IntN(len(funcNames))]
+		l = append(l, StmtN{false, funcN{name, StmtN{false, blockN{body}}}}, call(name))
+	} else {
+		l = append(l, body...)
+	}
+	l = append(l, StmtN{false, callN{[]word{lit("echo"), lit("end"), {{'s', ""}}}}})
+	return l
+}
+
+// like atom but never a plain failure (so that errexit does not end the scenario before its point)
+func (g *Gen) atom2() StmtN {
+	switch g.R.IntN(3) {
+	case 0:
+		return call("true")
+	case 1:
+		return StmtN{false, callN{[]word{lit("echo"), g.word()}}}
+	default:
+		return StmtN{false, binN{false, call("false"), call("true")}}
+	}
+}
+
 func (g *Gen) Program() []StmtN {
 	g.loopVar = 0
 	g.budget = 14 + g.R.IntN(30)
 	g.errexit = g.R.IntN(3) == 0
 	var l []StmtN
-	// a sixth of the programs each: the two targeted scenarios, followed by a few free statements
-	switch g.R.IntN(6) {
+	// a seventh of the programs each: the three targeted scenarios, followed by a few free statements
+	switch g.R.IntN(7) {
+	case 2:
+		l = g.scenarioErrexitCompound()
+		for i := g.R.IntN(2); i > 0; i-- {
+			l = append(l, g.stmt(2))
+		}
+		return l
 	case 0:
 		l = g.scenarioErrexitFunc()
 		for i := g.R.IntN(3); i > 0; i-- {
